@@ -96,6 +96,10 @@ func (P *Prog) newsWalkSig(v ssa.Value, p *ssa.Parameter, depth int) string {
 				continue
 			}
 			if q, ok := e.(*ssa.Phi); ok {
+				if family[q] {
+					okAll = false // the map is carried round unchanged on some path: a path component can be skipped
+					continue
+				}
 				visit(q)
 				continue
 			}
@@ -178,6 +182,13 @@ func (R *Run) ruleKindTargetAgree() {
 			n++
 			dnSig = P.newsWalkSig(c.Args[0], dn.Params[1], 0) + " / " + pathKeySig(c.Args[1], dn.Params[1])
 		}
+	}
+	if gc := P.fn("(*mobius.ThreadedNewsYAML).getCatByPath"); gc != nil {
+		sig := "?"
+		for _, ret := range returnsOf(gc) {
+			sig = P.newsWalkSig(retValue(ret, 0), gc.Params[1], 0)
+		}
+		R.check(sig == "WALK(P)", "kind-target-agree", "ThreadedNewsYAML.getCatByPath", P.pos(gc.Pos()), "descends one level per path component, unconditionally", "getCatByPath does not resolve a path component by component (signature "+sig+"): a missing or stale component is skipped, so requests addressed to one place act on another")
 	}
 	want := "WALK(P[:n-1]) / P[n-1]"
 	R.check(niSig == want && dnSig == want && n == 1, "kind-target-agree", "ThreadedNewsYAML.NewsItem vs DeleteNewsItem", P.pos(dn.Pos()),
